@@ -1084,6 +1084,16 @@ class StreamEngine(Engine):
                     st["slow_but_finished"] += 1
                     out = next(a for a in again if a["outcome"] != "timeout")
                     oc = out["outcome"]
+        elif oc == "verify-slow":
+            # the watchdog fired inside verify() (not judged): like above, log what a
+            # finished execution produces so that timer noise never reaches the trace
+            for _ in range(2):
+                a = judge.parse(damaged, wl, 2.0, lazy=lazy)
+                if a["outcome"] not in ("verify-slow", "timeout"):
+                    st["slow_but_finished"] += 1
+                    out = a
+                    oc = out["outcome"]
+                    break
         st[f"outcome.{'W1' if wl == 0 else 'W2'}.{oc}"] += 1
         res.steps = out["events"]
         viol: Violation | None = None
